@@ -172,8 +172,11 @@ func StartCluster(dir string, n int, o Options) ([]*Node, error) {
 		}
 		nodes[i] = nd
 	}
-	// wait until the HTTP servers answer
+	// wait until the RPC and HTTP servers answer
 	for _, nd := range nodes {
+		if err := waitTCP(nd.RPCAddr, 10*time.Second); err != nil {
+			return nil, err
+		}
 		ok := false
 		for t := 0; t < 200; t++ {
 			resp, err := http.Get("http://" + nd.HTTPAddr + "/v2/ping")
@@ -212,6 +215,20 @@ func StartNode(dir string, rpcPort, httpPort int, servers []string, o Options) (
 	return &Node{CN: cn, HTTP: srv, HTTPAddr: fmt.Sprintf("127.0.0.1:%d", httpPort), RPCAddr: fmt.Sprintf("localhost:%d", rpcPort), Dir: dir, Cfg: cfg}, nil
 }
 
+// waitTCP waits until something accepts connections on addr.
+func waitTCP(addr string, timeout time.Duration) error {
+	deadline := time.Now().Add(timeout)
+	for time.Now().Before(deadline) {
+		c, err := net.DialTimeout("tcp", addr, time.Second)
+		if err == nil {
+			c.Close()
+			return nil
+		}
+		time.Sleep(10 * time.Millisecond)
+	}
+	return fmt.Errorf("nothing listens on %s after %v", addr, timeout)
+}
+
 // Restart stops the node (if running) and starts it again on the same
 // directories and ports, as a process restart would.
 func (n *Node) Restart(plans map[string]models.UserPlan) error {
@@ -228,6 +245,10 @@ func (n *Node) Restart(plans map[string]models.UserPlan) error {
 	n.CN = cn
 	n.HTTP = httpapi.RunHTTPServer(cn, httpapi.HttpApiConfig{HttpHost: "127.0.0.1", HttpPort: port, UserPlans: plans}, nil)
 	n.stopped = false
+	// Serve() starts the RPC listener in a goroutine: peers may only be used once it accepts
+	if err := waitTCP(n.RPCAddr, 10*time.Second); err != nil {
+		return err
+	}
 	for t := 0; t < 300; t++ {
 		resp, err := http.Get("http://" + n.HTTPAddr + "/v2/ping")
 		if err == nil {
